@@ -137,3 +137,9 @@ package core
 //@   at call:SetOption#2 set inh:bool = true
 //@   ensures isnil(result1) && !has(options, mangos.OptionMaxRecvSize) ==> inh
 //@   ensures isnil(result1) ==> !isnil(result0) && cast("*listener", result0).s == s && cast("*listener", result0).addr == addr
+//@
+//@ func (*socket).NewDialer
+//@   before call:append#1 assert held(s.Mutex) && !s.closed
+//@
+//@ func (*socket).NewListener
+//@   before call:append#1 assert held(s.Mutex) && !s.closed
